@@ -116,18 +116,21 @@ def vals(t):
     if k == 'vec':
         e = vals(t[1])
         ty = src(t[1])
-        out = [('Vec::<%s>::new()' % ty, 'S[]'), ('vec![%s]' % e[0][0], 'S[%s]' % e[0][1])]
-        out.append(('vec![%s, %s]' % (e[-1][0], e[0][0]), 'S[%s,%s]' % (e[-1][1], e[0][1])))
+        el = lambda y: 'C{}' if y is None else y      # an element that is PhantomData is described as a composite without fields
+        out = [('Vec::<%s>::new()' % ty, 'S[]'), ('vec![%s]' % e[0][0], 'S[%s]' % el(e[0][1]))]
+        out.append(('vec![%s, %s]' % (e[-1][0], e[0][0]), 'S[%s,%s]' % (el(e[-1][1]), el(e[0][1]))))
         return out
     if k == 'opt':
         e = vals(t[1])
-        return [('Option::<%s>::None' % src(t[1]), 'V:None#0{}')] + [('Some(%s)' % x, 'V:Some#1{_:%s}' % y) for x, y in (e[0], e[-1])]
+        # Some(PhantomData): the member of Some is a PhantomData member and is not listed
+        return [('Option::<%s>::None' % src(t[1]), 'V:None#0{}')] + [('Some(%s)' % x, ('V:Some#1{_:%s}' % y) if y is not None else 'V:Some#1{}') for x, y in (e[0], e[-1])]
     if k == 'arr':
         e = vals(t[1])
         n = int(t[2])
         a = [e[i % len(e)] for i in range(n)]
         b = [e[-1 - (i % len(e))] for i in range(n)]
-        return [('[%s]' % ', '.join(x for x, _ in a), 'A[%s]' % ','.join(y for _, y in a)), ('[%s]' % ', '.join(x for x, _ in b), 'A[%s]' % ','.join(y for _, y in b))]
+        el = lambda y: 'C{}' if y is None else y
+        return [('[%s]' % ', '.join(x for x, _ in a), 'A[%s]' % ','.join(el(y) for _, y in a)), ('[%s]' % ', '.join(x for x, _ in b), 'A[%s]' % ','.join(el(y) for _, y in b))]
     if k == 'tup':
         parts = [vals(x) for x in t[1]]
         def mk(sel):
@@ -486,7 +489,9 @@ def all_members(d):
 # ------------------------------------------------------------------ enumeration: base shapes
 
 NG = [I('u8'), I('u32'), BOOL, STRING, VEC(I('u8')), OPT(I('u16')), ARR(I('u8'), 3), TUP(I('u8'), BOOL), TUP(I('u8'), TUP(BOOL, I('u8'))),
-      PH(I('u8')), ('strref', 'static'), BOX(I('u16')), I('i8'), I('u64'), I('u128'), SELFOPT, SELFVEC, TUP(I('u8'), PH(BOOL)), VEC(OPT(BOOL)), I('i32'), I('u16'), ('cowstr',), TUP(I('u8')), VEC(TUP(I('u32'))), TUP(TUP(BOOL), I('u8'))]
+      PH(I('u8')), ('strref', 'static'), BOX(I('u16')), I('i8'), I('u64'), I('u128'), SELFOPT, SELFVEC, TUP(I('u8'), PH(BOOL)), VEC(OPT(BOOL)), I('i32'), I('u16'), ('cowstr',), TUP(I('u8')), VEC(TUP(I('u32'))), TUP(TUP(BOOL), I('u8')),
+      # PhantomData in a NESTED position: only a member whose own type is PhantomData is dropped, these are real members
+      OPT(PH(I('u8'))), VEC(PH(BOOL)), ARR(PH(I('u8')), 2), TUP(I('u32'), PH(I('u8')))]
 S8 = [I('u8'), I('u32'), BOOL, STRING, VEC(I('u8')), PH(I('u8')), SELFOPT, TUP(I('u8'), BOOL), ('cowstr',)]
 S5 = [I('u8'), STRING, PH(I('u8')), OPT(I('u16')), I('u32')]
 FNAMES = ['a', 'b', 'c']
@@ -543,7 +548,7 @@ def base_shapes(thorough):
 
 
 GEN_MEMBER = [PARAM('T'), VEC(PARAM('T')), OPT(PARAM('T')), ARR(PARAM('T'), 2), PH(PARAM('T')), NAMED('Inner', PARAM('T')), BOX(PARAM('T')), TUP(PARAM('T'), I('u8')),
-              VEC(OPT(PARAM('T')))]
+              VEC(OPT(PARAM('T'))), OPT(PH(PARAM('T'))), TUP(I('u32'), PH(PARAM('T')))]
 
 
 def generic_shapes(thorough):
